@@ -14,6 +14,17 @@ CONFIGS = {
 }
 
 
+def _load_argnames():
+    p = os.path.join(os.path.dirname(os.path.abspath(__file__)), "argnames.json")
+    if os.environ.get("VERIF_NO_ARGNAMES") or not os.path.exists(p):
+        return {}
+    with open(p) as f:
+        return json.load(f)
+
+
+ARGNAMES = _load_argnames()
+
+
 class Body:
     def __init__(self, facts, j):
         self.facts = facts
@@ -33,6 +44,18 @@ class Body:
                 pr = [e for e in pl[1] if e != "*"]
                 if pr and isinstance(pr[0], dict) and "f" in pr[0] and pr[0]["f"] not in self.upvars:
                     self.upvars[pr[0]["f"]] = name
+        # Parameter (and captured-variable) names are role labels for the rules, not identifiers the author is bound
+        # to: they are taken from the reference table recorded on the tree the rules were written against whenever the
+        # function still has the same number of parameters, so that renaming a parameter changes nothing.
+        ref = ARGNAMES.get(self.path)
+        if ref and ref.get("argc") == self.argc:
+            for l, nm in ref.get("args", {}).items():
+                if int(l) in self.names:
+                    self.names[int(l)] = nm
+            if len(ref.get("upvars", {})) == len(self.upvars):
+                for k, nm in ref.get("upvars", {}).items():
+                    if int(k) in self.upvars:
+                        self.upvars[int(k)] = nm
         self._succ = None
         self._pred = None
 
